@@ -262,6 +262,22 @@ func (p *c14pair) spawnHolder() (gen.PID, error) {
 	return h, err
 }
 
+// settle lets a freshly made connection finish building its pool on both sides.  (An in-process node that is stopped
+// while its acceptor is still handing over a just-accepted socket keeps that socket open — a real process exit would
+// close it — so the harness does not stop a node in the first milliseconds of a connection.)
+func (p *c14pair) settle() {
+	for i := 0; i < 1000; i++ {
+		if _, err := p.b.Network().Node(p.nameA); err == nil {
+			break
+		}
+		if _, err := p.a.Network().Node(p.nameB); err != nil {
+			break // no connection at all
+		}
+		time.Sleep(time.Millisecond)
+	}
+	time.Sleep(60 * time.Millisecond)
+}
+
 // waitNoConn waits until neither node has a connection to the other (true) or the time is over (false)
 func (p *c14pair) waitNoConn(d time.Duration) bool {
 	deadline := time.Now().Add(d)
@@ -415,6 +431,13 @@ func c14runScenario(p *c14pair, sc c14Scen) c14result {
 	}
 	if relErr != nil {
 		res.setupErr = fmt.Sprintf("%s %s: %v", sc.Rel, sc.Kind, relErr)
+		if relErr == gen.ErrProcessIncarnation {
+			pc := int64(-1)
+			if rn, e := p.a.Network().Node(p.nameB); e == nil {
+				pc = rn.Creation()
+			}
+			res.setupErr += fmt.Sprintf(" (target creation %d, node B creation %d, A's connection peer creation %d)", tp.Creation, p.b.Creation(), pc)
+		}
 		return res
 	}
 	// the fault
@@ -436,12 +459,17 @@ func c14runScenario(p *c14pair, sc c14Scen) c14result {
 	case "cutB":
 		// the accepting side drops the connection
 		rn, err := p.b.Network().Node(p.nameA)
+		for i := 0; err != nil && i < 1000; i++ { // the acceptor registers the connection asynchronously
+			time.Sleep(time.Millisecond)
+			rn, err = p.b.Network().Node(p.nameA)
+		}
 		if err != nil {
 			res.setupErr = "no connection to cut on the accepting side: " + err.Error()
 			return res
 		}
 		rn.Disconnect()
 	case "stop":
+		p.settle()
 		p.b.StopForce()
 	}
 	// wait for the notification (bounded), then a settle period to see duplicates
@@ -596,6 +624,7 @@ func c14stale(c *Ctx, p *c14pair) {
 		r.Count("inconclusive.stale-setup")
 		return
 	}
+	p.settle()
 	if err := p.restartB(); err != nil {
 		r.Count("inconclusive.restart")
 		return
